@@ -136,8 +136,8 @@ func (x *accExtractor) buildSkeletons() []*skFunc {
 			w: &walker{x: x, p: p, fn: owner}}
 		var pre []*cmd
 		if s.fn != nil {
-			for _, h := range s.fn.extra { // func_holds annotation: assumed acquired when the body starts
-				pre = append(pre, &cmd{op: "acq", lock: h, mode: lExcl})
+			for _, h := range s.fn.extra { // func_holds annotation: assumed held when the body starts
+				pre = append(pre, &cmd{op: "asm", lock: h, mode: lExcl})
 				s.hasOwn = true
 			}
 		}
@@ -451,7 +451,7 @@ func (b *skBuilder) closureCall(fl *ast.FuncLit, kind string) *cmd {
 	ci := s.clo
 	var cs []*cmd
 	for _, a := range ci.annots {
-		cs = append(cs, &cmd{op: "acq", lock: a, mode: lExcl})
+		cs = append(cs, &cmd{op: "asm", lock: a, mode: lExcl})
 	}
 	cs = append(cs, c)
 	if kind == "go" || kind == "defer" || !ci.sync {
@@ -575,8 +575,8 @@ func (b *skBuilder) callCmd(c *ast.CallExpr, kind string) *cmd {
 	cs := []*cmd{call}
 	for _, an := range b.x.ann.CallAcquires {
 		if an.Callee == name {
-			for _, h := range an.Holds {
-				cs = append(cs, &cmd{op: "acq", lock: h, mode: lExcl})
+			for _, h := range an.Holds { // call_acquires annotation: assumed held when the call has returned
+				cs = append(cs, &cmd{op: "asm", lock: h, mode: lExcl})
 			}
 		}
 	}
@@ -589,6 +589,7 @@ func (b *skBuilder) callCmd(c *ast.CallExpr, kind string) *cmd {
 type skEmitter struct {
 	lockID func(string) int
 	occ    int
+	asms   int // annotated assumptions emitted
 	sb     *strings.Builder
 }
 
@@ -603,6 +604,9 @@ func (e *skEmitter) render(c *cmd) string {
 		}
 		// an exclusive hold also counts as a shared hold of the same mutex
 		return fmt.Sprintf("(.seq (.acq ⟨%d, .excl⟩) (.acq ⟨%d, .shared⟩))", e.lockID(c.lock), e.lockID(c.lock))
+	case "asm":
+		e.asms++
+		return fmt.Sprintf("(.seq (.asm ⟨%d, .excl⟩) (.asm ⟨%d, .shared⟩))", e.lockID(c.lock), e.lockID(c.lock))
 	case "rel":
 		return fmt.Sprintf("(.rel %d)", e.lockID(c.lock))
 	case "dfr":
